@@ -116,6 +116,33 @@ UNSIZED_TAILS = [
 ]
 
 
+def inherent_modules():
+    """field types with INHERENT methods called `fmt` / a second fmt trait in scope: the generated code has to name
+    `Debug::fmt`, not rely on method resolution"""
+    out = []
+    decls = [('pub struct X { #[debug(transparent)] pub a: Cel }', 'X { a: Cel(21) }', 'Cel(21)'),
+             ('pub struct X(pub u8, #[debug(ignore)] pub u8, pub Cel);', 'X(1, 2, Cel(21))', 'twin::X(1, Cel(21))'),
+             ('pub enum X { A(#[debug(transparent)] Cel), B { c: Cel } }', 'X::A(Cel(21))', 'Cel(21)'),
+             ('pub struct X { #[debug(transparent)] pub a: u32 }', 'X { a: 7 }', '7u32')]
+    for k, (decl, val, ref) in enumerate(decls):
+        for mode in ('attr', 'derive'):
+            cid = 2 * 10 ** 6 + 2 * k + (mode == 'derive')
+            head = '#[::derive_ex::derive_ex(Debug)]' if mode == 'attr' else '#[derive(::derive_ex::Ex)] #[derive_ex(Debug)]'
+            import re as _re
+            clean = _re.sub(r'#\[debug\([a-z]+\)\] (pub )?u8, ', '', decl).replace('#[debug(transparent)] ', '')
+            src = ['#[allow(unused_imports)] use ::core::fmt::Display;',
+                   '#[derive(Debug)] pub struct Cel(pub i32);',
+                   'impl Cel { pub fn fmt(&self, f: &mut ::core::fmt::Formatter) -> ::core::fmt::Result { f.write_str("inherent") } }',
+                   head + ' ' + decl, 'pub mod twin { #[allow(unused_imports)] use super::*; #[derive(Debug)] %s }' % clean, 'pub fn run() {']
+            for si, spec in enumerate(SPECS):
+                src.append('    println!("%d\\tv0s%d\\t{}", format!("%s", %s) == format!("%s", %s));' % (cid, si, spec, val, spec, ref))
+            src.append('}')
+            text = ('#[derive_ex(Debug)] ' if mode == 'attr' else '#[derive(Ex)] #[derive_ex(Debug)] ') + decl + \
+                '   [Cel has an inherent `fmt`; `Display` is imported]'
+            out.append((cid, '\n'.join(src), text, len(SPECS)))
+    return out
+
+
 def unsized_modules():
     out = []
     for k, (g, wh, body, val) in enumerate(UNSIZED_TAILS):
@@ -246,7 +273,7 @@ class C10(Prop):
                 self.text, self.meta = text, dict(raw=False, nontrivial=True, vs=[None] * 0, n_expected=n)
             def input_text(self):
                 return self.text
-        for cid, src, text, n in unsized_modules():
+        for cid, src, text, n in unsized_modules() + inherent_modules():
             mods.append(l2.Module(cid, src, _Lit(text, n)))
         nb = 8
         batches = [('c10_%d' % k, mods[k::nb]) for k in range(nb)]
